@@ -470,10 +470,11 @@ const (
 	evCall2A
 	evBurstB
 	evCutNewestA
+	evCutOldestA
 	nTrEvents
 )
 
-var trEvNames = []string{"call(a)", "call(b)", "ping(a)", "go(a)", "long(a)", "stream(a)", "release", "tick", ">keepalive", ">idle", "closeidle", "kill(a)", "restart(a)", "closestream", "refused-stream(a)", "many-long(a)", "many-long(b)", "release-keep", "abandon(a)", "call-call(a)", "burst(b)", "cut-newest(a)"}
+var trEvNames = []string{"call(a)", "call(b)", "ping(a)", "go(a)", "long(a)", "stream(a)", "release", "tick", ">keepalive", ">idle", "closeidle", "kill(a)", "restart(a)", "closestream", "refused-stream(a)", "many-long(a)", "many-long(b)", "release-keep", "abandon(a)", "call-call(a)", "burst(b)", "cut-newest(a)", "cut-oldest(a)"}
 
 func (t *trSys) do(ev int) {
 	switch ev {
@@ -552,9 +553,13 @@ func (t *trSys) do(ev int) {
 			}
 			t.log = append(t.log, fmt.Sprintf("abandon(a)@conn%d", id))
 		}
-	case evCutNewestA:
-		// the peer closes ONE pooled connection to a (the one dialled last that is still open): the server stays up
-		for i := len(t.n.conns) - 1; i >= 0; i-- {
+	case evCutNewestA, evCutOldestA:
+		// the peer closes ONE pooled connection to a (the one dialled last / first that is still open): the server stays up
+		for k := len(t.n.conns) - 1; k >= 0; k-- {
+			i := k
+			if ev == evCutOldestA {
+				i = len(t.n.conns) - 1 - k
+			}
 			c := t.n.conns[i]
 			if c.addr == "a" && !c.end.p.closed[0] && !c.end.p.closed[1] && !c.end.p.dead && !c.end.p.reset {
 				for _, sc := range t.n.lis["a"].accepted {
@@ -721,6 +726,31 @@ func trSeqBodyK(prop string, keep bool, L int, alphabet []int, limits [][2]int, 
 	}
 }
 
+// Transport.Close with whatever is pooled at that moment (no idle period first): every connection the
+// Transport still holds is closed, also when some of its entries have died, have failed a call and have
+// been closed by the Transport already, wherever in the host's list they sit.
+func trCloseNowBody(L int, alphabet []int, limits [][2]int, prefix ...int) func(x *X) {
+	return func(x *X) {
+		lim := limits[x.Choose(len(limits))]
+		t := newTrSys(x, "C15", lim[0], lim[1])
+		for _, ev := range prefix {
+			t.do(ev)
+		}
+		for i := 0; i < L; i++ {
+			t.do(alphabet[x.Choose(len(alphabet))])
+		}
+		t.finish(false)
+		t.shutdown()
+		for _, a := range []string{"a", "b"} {
+			if t.n.live[a] != 0 {
+				x.Fail("C15/close-leaves-connections", "%d connections to %q are still open after Transport.Close; events: %v", t.n.live[a], a, t.log)
+			}
+		}
+		census(x, t.n, fmt.Sprintf("transport closed after events %v", t.log))
+		x.Outcome("lim=%v %v dials=%d", lim, t.log, t.n.dials["a"])
+	}
+}
+
 // concurrent driver: two callers race, then events
 func trConcBody(prop string, limits [][2]int) func(x *X) {
 	return func(x *X) {
@@ -811,6 +841,7 @@ func init() {
 	register(&Scenario{Prop: "C14", Name: "c14/back-to-back-calls-L4", Quick: []Bound{{0, 0}}, Thorough: []Bound{{1, 0}}, Body: trSeqBody("C14", 4, b2b, trLimits[:3], evCallA), MaxSteps: 400000, BudgetQ: 25, BudgetT: 300})
 	// the peer closes one of several pooled connections (the server stays up): calls, idle periods and ticks afterwards
 	oneCut := []int{evCallA, evPastKeepAlive, evTick, evCutNewestA}
+	register(&Scenario{Prop: "C15", Name: "c15/close-with-dead-entries-L4", Quick: []Bound{{0, 0}}, Thorough: []Bound{{1, 0}}, Body: trCloseNowBody(4, []int{evCallA, evCutOldestA, evCutNewestA, evTick, evLongA}, [][2]int{{2, 2}, {3, 2}, {3, 3}}, evManyLongA, evRelease), MaxSteps: 1000000, BudgetQ: 25, BudgetT: 300, OnlyKeys: []string{"C15/", "C20/", "panic/", "livelock/", "hang/"}})
 	for _, p := range []string{"C14", "C08"} {
 		keys := []string{p + "/", "panic/", "fatal/", "livelock/", "hang/"}
 		register(&Scenario{Prop: p, Name: "c" + p[1:] + "/one-pooled-connection-cut-L6", Quick: []Bound{{0, 0}}, Thorough: []Bound{{1, 0}}, Body: trSeqBody(p, 6, oneCut, [][2]int{{2, 2}, {3, 2}, {3, 3}}, evManyLongA, evRelease, evCutNewestA), MaxSteps: 1000000, BudgetQ: 25, BudgetT: 300, OnlyKeys: keys})
